@@ -1,7 +1,7 @@
 (* C17 — A Reorder'd injector may be listed anywhere. *)
 From Coq Require Import List Arith Bool Permutation.
 Import ListNotations.
-From NJ Require Import Base Registry Classify Select Reorder Machine Spec Bind ReorderProofs SelectProofs Refine Chain OrderProofs.
+From NJ Require Import Base Registry Classify Select Reorder Machine Spec Bind ReorderProofs SelectProofs Refine Chain OrderProofs WfProofs.
 
 (* Reordering never loses or duplicates a provider: the working list after reorder is a
    permutation of the list before (by provider id), for every list. *)
@@ -64,3 +64,17 @@ Example C17_nonvacuous :
             map p_pid (filter (fun p => negb (is_reorder p)) r) = [1; 3; 4].
 Proof. eexists. split; [vm_compute; reflexivity|]. split; reflexivity. Qed.
 Print Assumptions C17_nonvacuous.
+
+(* C17_inputs_as_in_C01 with its hypothesis discharged: whatever order Reorder chose, a chain that
+   binds refines the reference semantics of its plan, provided the sort left every included
+   per-invocation provider other than plain injectors behind the invoke function (and an init function's returns have slots). *)
+Theorem C17_inputs_as_in_C01_bound : forall c pl b,
+  bind_chain c = Ok (pl, b) -> runs_after_invoke pl = true -> init_covered pl = true ->
+  exists sp, splan_of (bc_te c) pl = Some sp /\
+  forall (W : Type) beh_fn beh_wrap steps (w0 : W),
+    let m := run_session W beh_fn beh_wrap b (mkSess W w0 (bd_base0 b) false true) steps in
+    let s := sem_session W beh_fn beh_wrap (te_errorT (bc_te c)) sp
+                         (mkSsess W w0 (base_env (pl_slots pl) (bd_base0 b)) false true) steps in
+    snd m = snd s /\ ss_w W (fst m) = sq_w W (fst s).
+Proof. exact chain_refines_bound. Qed.
+Print Assumptions C17_inputs_as_in_C01_bound.
